@@ -1,6 +1,6 @@
 (* C13 (part 4) -- SE3.Delta.
    Since 03e6d35 in /repo, SE3.Delta(d) = SE3(trnorm(delta2tr(d))).  tr_Delta is the library's trnorm(delta2tr(d))
-   executed on a symbolic d (concolic: unitvec compares three norms with 100 eps; the comparisons are regenerated
+   executed on a symbolic d (concolic: unitvec compares three norms with its threshold -- `>= 10 eps` since 4dbd011; the comparisons are regenerated
    as pc_Delta and shown below to hold for EVERY d).  isR_model (theories/Model/C13_valid.v) is the validity test the
    constructor applies (tied numerically to SE3.isvalid); trnorm44_m is C14's hand model of trnorm, to which the
    trace is bridged for every d so that C14's projection lemma trnorm33_SO3 applies.
@@ -65,7 +65,7 @@ Ltac fold_sqrt N :=
   repeat match goal with |- context [sqrt ?a] =>
     replace (sqrt a) with N by (unfold N; apply f_equal; ring) end.
 
-Theorem C13_Delta_is_trnorm : forall (thr : R) (d : V6 R), 0 <= thr < 1 ->
+Theorem C13_Delta_is_trnorm : forall (thr : R) (d : V6 R), 0 <= thr <= 1 ->
   trnorm44_m Rops thr (tr_delta2tr Rops d) = Some (tr_Delta Rops d).
 Proof.
   intros thr d Hthr. pose proof (Delta_norms d) as H. cbv zeta in H. destruct H as (Hn & Hp & Ha).
@@ -86,15 +86,16 @@ Proof.
   match goal with |- 1 <= sqrt ?a -> 1 <= sqrt ?b -> 1 <= sqrt ?c -> _ =>
     set (Nn := sqrt a); set (Np := sqrt b); set (Na := sqrt c) end.
   intros Hn Hp Ha. fold_sqrt Nn. fold_sqrt Np. fold_sqrt Na.
-  rewrite !andb_true_iff. repeat split; apply Rltb_true; lra.
+  (* the comparisons are `100 eps < norm` before 4dbd011 and `10 eps <= norm` after it: both follow from 1 <= norm *)
+  rewrite !andb_true_iff. repeat split; first [apply Rltb_true | apply Rleb_true]; lra.
 Qed.
 Print Assumptions C13_Delta_path_total.
 
 Theorem C13_Delta_in_SE3 : forall d : V6 R,
   SE3 (tr_Delta Rops d) /\ transl3 (tr_Delta Rops d) = tw_v d.
 Proof.
-  intros d. assert (Hthr : 0 <= 0 < 1) by lra. pose proof (C13_Delta_is_trnorm 0 d Hthr) as H.
-  unfold trnorm44_m in H. destruct (trnorm33_m Rops 0 (t2r3 (tr_delta2tr Rops d))) as [R'|] eqn:E; [|discriminate].
+  intros d. assert (Hthr : 0 <= 1/2 <= 1) by lra. pose proof (C13_Delta_is_trnorm (1/2) d Hthr) as H.
+  unfold trnorm44_m in H. destruct (trnorm33_m Rops (1/2) (t2r3 (tr_delta2tr Rops d))) as [R'|] eqn:E; [|discriminate].
   apply trnorm33_SO3 in E; [|lra]. injection H as H. rewrite <- H. split.
   - apply SE3_rt. exact E.
   - destruct d as [[[[[v0 v1] v2] w0] w1] w2]. destruct_tuples. reflexivity.
